@@ -43,6 +43,7 @@ import (
 	"github.com/lightningnetwork/lnd/chanstate"
 	"github.com/lightningnetwork/lnd/clock"
 	"github.com/lightningnetwork/lnd/internal/verif/vstats"
+	"github.com/lightningnetwork/lnd/kvdb"
 	"github.com/lightningnetwork/lnd/lnpeer"
 	"github.com/lightningnetwork/lnd/lntest/mock"
 	"github.com/lightningnetwork/lnd/lntypes"
@@ -65,6 +66,36 @@ func (p *c07Peer) PubKey() [33]byte { return p.pub }
 type c07Link struct {
 	*mockChannelLink
 	rec *c07Recorder
+
+	// life-cycle mode (TestVerifC07LinkLifecycle): the link does at Start
+	// and Stop what channelLink.Start / channelLink.Stop do with the
+	// circuit map and the mailbox.
+	lc     bool
+	trimTo uint64
+}
+
+// Start: channelLink.Start resets the wire messages, reverts the keystones
+// that did not make it into a commitment (TrimOpenCircuits to the channel's
+// next local htlc index) and, once the channel is re-established, resets the
+// packet courier so that every un-acked packet is handed over again.
+func (l *c07Link) Start() error {
+	if l.lc {
+		err := l.htlcSwitch.circuits.TrimOpenCircuits(
+			l.shortChanID, l.trimTo,
+		)
+		if err != nil {
+			return err
+		}
+	}
+
+	return l.mockChannelLink.Start()
+}
+
+// Stop: channelLink.Stop resets the packet courier.
+func (l *c07Link) Stop() {
+	if l.lc {
+		_ = l.mailBox.ResetPackets()
+	}
 }
 
 type c07Recorder struct {
@@ -153,6 +184,26 @@ type c07Htlc struct {
 
 	handed      int
 	respEntered int // in the current switch lifetime
+
+	// life-cycle mode
+	w         *c07World
+	unclaimed bool // response parked: incoming link not yet added
+	wasParked bool // the response in the mailbox had been parked
+	parkedFin bool // a parked response was handed over, committed, acked
+	// wantDest is the forwarding-package reference (of the outgoing
+	// channel) the accepted response carries, nil for responses that are
+	// in no forwarding package (local failures, contract resolutions).
+	wantDest *channeldb.SettleFailRef
+}
+
+// c07FwdEntry is one settle/fail in a forwarding package of an outgoing
+// channel (written when the remote revocation locks the response in, acked by
+// the commitment of the incoming link that carries the response).
+type c07FwdEntry struct {
+	out    CircuitKey
+	ref    channeldb.SettleFailRef
+	settle bool
+	acked  bool
 }
 
 type c07LinkState struct {
@@ -193,7 +244,20 @@ type c07World struct {
 
 	labels map[string]bool
 	ops    []string
+
+	// life-cycle mode: links are added lazily, removed and re-added.
+	lc        bool
+	live      [c07NumChans + 1]bool // link registered with the switch
+	bound     [c07NumChans + 1]bool // added at least once since Start
+	hadParked [c07NumChans + 1]bool
+	fwd       [c07NumChans + 1][]*c07FwdEntry
+	fwdHeight [c07NumChans + 1]uint64
+	fwdByOut  map[CircuitKey]*c07FwdEntry
+	fwdByRef  map[channeldb.SettleFailRef]*c07FwdEntry
+	resMsgs   map[CircuitKey]bool
 }
+
+func (w *c07World) up(c int) bool { return !w.lc || w.live[c] }
 
 func (w *c07World) label(l string) { w.labels[l] = true }
 
@@ -234,7 +298,18 @@ func (w *c07World) startSwitch() error {
 			return chans, nil
 		},
 		FetchAllChannels: func() ([]*chanstate.OpenChannel, error) {
-			return nil, nil
+			if !w.lc {
+				return nil, nil
+			}
+			// reforwardResponses walks the forwarding packages of
+			// these channels.
+			var chans []*chanstate.OpenChannel
+			for c := 1; c <= c07NumChans; c++ {
+				chans = append(chans, c07OpenChan(uint64(c), false,
+					w.ls[c].watermark, c%2 == 0))
+			}
+
+			return chans, nil
 		},
 		FetchClosedChannels: func(bool) (
 			[]*chanstate.ChannelCloseSummary, error) {
@@ -278,21 +353,38 @@ func (w *c07World) startSwitch() error {
 	}
 	w.sw = s
 
+	// Life-cycle mode: the links are added later, at generated points.
+	if w.lc {
+		return nil
+	}
 	for c := 1; c <= c07NumChans; c++ {
-		peer := &c07Peer{}
-		peer.pub[0] = 2
-		peer.pub[1] = byte(c)
-		ml := newMockChannelLink(
-			s, c07ChanID(uint64(c)),
-			lnwire.NewShortChanIDFromInt(uint64(c)), emptyScid, peer,
-			w.ls[c].eligible, false, false, false,
-		)
-		l := &c07Link{mockChannelLink: ml, rec: w.rec}
-		if err := s.AddLink(l); err != nil {
+		if err := w.plugLink(c); err != nil {
 			return err
 		}
-		w.links[c] = l
 	}
+
+	return nil
+}
+
+// plugLink creates a new link object for channel c (a reconnecting peer gets
+// a new link) and registers it with the switch.
+func (w *c07World) plugLink(c int) error {
+	peer := &c07Peer{}
+	peer.pub[0] = 2
+	peer.pub[1] = byte(c)
+	ml := newMockChannelLink(
+		w.sw, c07ChanID(uint64(c)),
+		lnwire.NewShortChanIDFromInt(uint64(c)), emptyScid, peer,
+		w.ls[c].eligible, false, false, false,
+	)
+	l := &c07Link{
+		mockChannelLink: ml, rec: w.rec, lc: w.lc,
+		trimTo: w.ls[c].watermark,
+	}
+	if err := w.sw.AddLink(l); err != nil {
+		return err
+	}
+	w.links[c] = l
 
 	return nil
 }
@@ -342,12 +434,28 @@ func (w *c07World) barrier() error {
 }
 
 func (w *c07World) mailbox(c int) *memoryMailBox {
-	return w.links[c].mailBox.(*memoryMailBox)
+	if !w.lc {
+		return w.links[c].mailBox.(*memoryMailBox)
+	}
+
+	// The mailbox of a channel outlives its links (it exists from the
+	// first AddLink until the switch stops).
+	mo := w.sw.mailOrchestrator
+	mo.mu.RLock()
+	defer mo.mu.RUnlock()
+	if m, ok := mo.mailboxes[c07ChanID(uint64(c))]; ok {
+		return m.(*memoryMailBox)
+	}
+
+	return nil
 }
 
 // boxAdds / boxResps list the unacked packets of a mailbox in queue order.
 func (w *c07World) boxAdds(c int) []*htlcPacket {
 	m := w.mailbox(c)
+	if m == nil {
+		return nil
+	}
 	m.pktCond.L.Lock()
 	defer m.pktCond.L.Unlock()
 
@@ -361,6 +469,9 @@ func (w *c07World) boxAdds(c int) []*htlcPacket {
 
 func (w *c07World) boxResps(c int) []*htlcPacket {
 	m := w.mailbox(c)
+	if m == nil {
+		return nil
+	}
 	m.pktCond.L.Lock()
 	defer m.pktCond.L.Unlock()
 
@@ -400,8 +511,22 @@ func (e *c07Expect) hand(h *c07Htlc) {
 // respond predicts a response travelling to the incoming mailbox, which
 // holds at most one unacked response per incoming key.
 func (e *c07Expect) respond(h *c07Htlc) {
+	// Life-cycle mode: as long as the incoming channel's link has not
+	// been added since the switch started, the response is parked by the
+	// mail orchestrator ("unclaimed") and must be handed over when the
+	// link is added.
+	if w := h.w; w != nil && w.lc && !w.bound[h.in.ChanID.ToUint64()] {
+		h.unclaimed = true
+		w.label("lc:resp_parked_unclaimed")
+
+		return
+	}
 	if h.respBox {
 		return
+	}
+	if w := h.w; w != nil && w.lc && !w.live[h.in.ChanID.ToUint64()] {
+		// straight into the mailbox that outlives the link
+		w.label("lc:resp_while_link_removed")
 	}
 	h.respBox = true
 	e.resp = append(e.resp, c07KeyStr(h.in))
@@ -464,6 +589,22 @@ func (w *c07World) settle(exp *c07Expect) error {
 						c07KeyStr(in), pkt.sourceRef, h.ref)
 				}
 			}
+
+			// Life-cycle mode: likewise the reference into the
+			// outgoing channel's forwarding package, without which
+			// the incoming link's commitment can not ack the
+			// settle/fail there (it would be re-forwarded at every
+			// start).
+			if h := w.htlcs[in]; h != nil && w.lc && !h.resolved {
+				got, want := pkt.destRef, h.wantDest
+				if (got == nil) != (want == nil) ||
+					(got != nil && *got != *want) {
+
+					return fmt.Errorf("response for HTLC %s "+
+						"carries destRef %v, expected %v",
+						c07KeyStr(in), got, want)
+				}
+			}
 		}
 	}
 
@@ -493,6 +634,12 @@ func (w *c07World) settle(exp *c07Expect) error {
 				continue
 			}
 			h.respEntered++
+			if h.resolved && w.lc {
+				return fmt.Errorf("AT-MOST-ONCE: the incoming link "+
+					"is handed another settle/fail for HTLC %s "+
+					"after it committed and acked one (circuit "+
+					"torn down)", in)
+			}
 			if h.respEntered > 1 {
 				return fmt.Errorf("AT-MOST-ONCE: %d responses for "+
 					"HTLC %s entered the incoming mailbox in "+
@@ -663,6 +810,11 @@ func (w *c07World) predictAdd(h *c07Htlc, exp *c07Expect) string {
 			exp.respond(h)
 			return "add:circular"
 
+		case !w.up(int(h.target)):
+			// no link registered for the outgoing channel
+			exp.respond(h)
+			return "add:no_link"
+
 		case !w.ls[h.target].eligible:
 			exp.respond(h)
 			return "add:not_eligible"
@@ -684,7 +836,10 @@ func (w *c07World) predictAdd(h *c07Htlc, exp *c07Expect) string {
 }
 
 func (w *c07World) actForward(t *rapid.T) error {
-	c := rapid.IntRange(1, c07NumChans).Draw(t, "inLink")
+	c := w.anyLink(t, "inLink")
+	if c == 0 {
+		return nil
+	}
 	n := rapid.IntRange(1, 4).Draw(t, "fwdN")
 	exp := &c07Expect{}
 	var pkts []*htlcPacket
@@ -707,6 +862,7 @@ func (w *c07World) actForward(t *rapid.T) error {
 				target = c07UnknownChan
 			}
 			h = &c07Htlc{
+				w:      w,
 				in:     c07Key(uint64(c), w.ls[c].nextIn),
 				target: target,
 				hash: c07Hashes[rapid.IntRange(0, 2).Draw(t,
@@ -755,6 +911,7 @@ func (w *c07World) actSendLocal(t *rapid.T) error {
 			target = c07UnknownChan
 		}
 		h = &c07Htlc{
+			w:      w,
 			in:     c07Key(0, w.nextLocal),
 			target: target,
 			hash:   c07Hashes[rapid.IntRange(0, 2).Draw(t, "hash")],
@@ -768,7 +925,8 @@ func (w *c07World) actSendLocal(t *rapid.T) error {
 	var want error
 	v := ""
 	switch {
-	case h.target == c07UnknownChan || !w.ls[h.target].eligible:
+	case h.target == c07UnknownChan || !w.up(int(h.target)) ||
+		!w.ls[h.target].eligible:
 		// rejected before a circuit is created
 		v = "local:link_error"
 		if !h.exists {
@@ -815,7 +973,15 @@ func (w *c07World) actSendLocal(t *rapid.T) error {
 // actReplayAll: a restarted incoming link re-forwards every add of its
 // forwarding packages that was not yet answered durably.
 func (w *c07World) actReplayAll(t *rapid.T) error {
-	c := rapid.IntRange(1, c07NumChans).Draw(t, "replayLink")
+	c := w.anyLink(t, "replayLink")
+	if c == 0 {
+		return nil
+	}
+
+	return w.replayAll(c)
+}
+
+func (w *c07World) replayAll(c int) error {
 	exp := &c07Expect{}
 	var pkts []*htlcPacket
 	var desc []string
@@ -840,8 +1006,12 @@ func (w *c07World) actReplayAll(t *rapid.T) error {
 func (w *c07World) drawLink(t *rapid.T, name string,
 	useful func(c int) bool) int {
 
-	var good []int
+	var good, all []int
 	for c := 1; c <= c07NumChans; c++ {
+		if !w.up(c) {
+			continue
+		}
+		all = append(all, c)
 		if useful(c) {
 			good = append(good, c)
 		}
@@ -849,8 +1019,26 @@ func (w *c07World) drawLink(t *rapid.T, name string,
 	if len(good) > 0 && rapid.IntRange(0, 9).Draw(t, name+"Useful") != 4 {
 		return rapid.SampledFrom(good).Draw(t, name)
 	}
+	if w.lc {
+		// only a registered link can act
+		if len(all) == 0 {
+			return 0
+		}
+
+		return rapid.SampledFrom(all).Draw(t, name)
+	}
 
 	return rapid.IntRange(1, c07NumChans).Draw(t, name)
+}
+
+// anyLink draws a link that can act (in life-cycle mode: a registered one, 0
+// if there is none).
+func (w *c07World) anyLink(t *rapid.T, name string) int {
+	if !w.lc {
+		return rapid.IntRange(1, c07NumChans).Draw(t, name)
+	}
+
+	return w.drawLink(t, name, func(int) bool { return false })
 }
 
 // actOutProcess: the outgoing link works on the adds in its mailbox.
@@ -864,6 +1052,9 @@ func (w *c07World) actOutProcess(t *rapid.T) error {
 
 		return false
 	})
+	if c == 0 {
+		return nil
+	}
 	exp := &c07Expect{}
 	var desc []string
 	for _, pkt := range w.boxAdds(c) {
@@ -887,6 +1078,7 @@ func (w *c07World) actOutProcess(t *rapid.T) error {
 				w.resolveLocal(h, exp)
 			default:
 				h.closed = true
+				h.wantDest = nil
 				exp.respond(h)
 			}
 			w.label("out:fail_add")
@@ -923,7 +1115,12 @@ func (w *c07World) actOutProcess(t *rapid.T) error {
 }
 
 func (w *c07World) actOutCommit(t *rapid.T) error {
-	return w.outCommit(rapid.IntRange(1, c07NumChans).Draw(t, "commitLink"))
+	c := w.anyLink(t, "commitLink")
+	if c == 0 {
+		return nil
+	}
+
+	return w.outCommit(c)
 }
 
 func (w *c07World) outCommit(c int) error {
@@ -966,7 +1163,10 @@ func (w *c07World) trimModel(c int) int {
 }
 
 func (w *c07World) actOutRestart(t *rapid.T) error {
-	c := rapid.IntRange(1, c07NumChans).Draw(t, "restartLink")
+	c := w.anyLink(t, "restartLink")
+	if c == 0 {
+		return nil
+	}
 	err := w.sw.circuits.TrimOpenCircuits(
 		lnwire.NewShortChanIDFromInt(uint64(c)), w.ls[c].watermark,
 	)
@@ -1002,13 +1202,14 @@ func (w *c07World) actRespond(t *rapid.T) error {
 
 		return false
 	})
-	if w.ls[c].watermark == 0 {
+	if c == 0 || w.ls[c].watermark == 0 {
 		return nil
 	}
 	n := rapid.IntRange(1, 3).Draw(t, "respN")
 	exp := &c07Expect{}
 	var pkts []*htlcPacket
 	var desc []string
+	var newFwd []channeldb.LogUpdate
 	for i := 0; i < n; i++ {
 		id := uint64(rapid.IntRange(0, int(w.ls[c].watermark)-1).Draw(t,
 			"respID"))
@@ -1039,10 +1240,53 @@ func (w *c07World) actRespond(t *rapid.T) error {
 		settle := rapid.Bool().Draw(t, "settle")
 		out := c07Key(uint64(c), id)
 
+		// Life-cycle mode: the response is locked in by a revocation
+		// of the remote peer, which writes it into a forwarding
+		// package of this channel; the packet refers to it. A later
+		// replay (restarted link) carries the same reference and the
+		// same message.
+		var fe *c07FwdEntry
+		if w.lc {
+			fe = w.fwdByOut[out]
+			if fe == nil {
+				fe = &c07FwdEntry{
+					out: out,
+					ref: channeldb.SettleFailRef{
+						Source: out.ChanID,
+						Height: w.fwdHeight[c],
+						Index:  uint16(len(newFwd)),
+					},
+					settle: settle,
+				}
+				w.fwdByOut[out] = fe
+				w.fwdByRef[fe.ref] = fe
+				w.fwd[c] = append(w.fwd[c], fe)
+				var msg lnwire.Message
+				if settle {
+					msg = &lnwire.UpdateFulfillHTLC{
+						ChanID: c07ChanID(uint64(c)), ID: id,
+					}
+				} else {
+					msg = &lnwire.UpdateFailHTLC{
+						ChanID: c07ChanID(uint64(c)), ID: id,
+						Reason: lnwire.OpaqueReason(fakeHmac),
+					}
+				}
+				newFwd = append(newFwd, channeldb.LogUpdate{
+					LogIndex: id, UpdateMsg: msg,
+				})
+			}
+			settle = fe.settle
+		}
+
 		pkt := &htlcPacket{
 			outgoingChanID: out.ChanID,
 			outgoingHTLCID: id,
 			amount:         1,
+		}
+		if fe != nil {
+			ref := fe.ref
+			pkt.destRef = &ref
 		}
 		if settle {
 			pkt.htlc = &lnwire.UpdateFulfillHTLC{}
@@ -1073,9 +1317,18 @@ func (w *c07World) actRespond(t *rapid.T) error {
 		case h.in.ChanID.ToUint64() == 0:
 			v = "first_local"
 			w.resolveLocal(h, exp)
+			if fe != nil {
+				// handleLocalResponse acks the reference
+				fe.acked = true
+			}
 		default:
 			v = "first"
 			h.closed = true
+			h.wantDest = nil
+			if fe != nil {
+				ref := fe.ref
+				h.wantDest = &ref
+			}
 			exp.respond(h)
 		}
 		w.label("resp:" + v)
@@ -1083,6 +1336,20 @@ func (w *c07World) actRespond(t *rapid.T) error {
 			settle, v))
 	}
 	w.logf("respond(link%d)[%s]", c, strings.Join(desc, " "))
+
+	if len(newFwd) > 0 {
+		scid := lnwire.NewShortChanIDFromInt(uint64(c))
+		pkg := channeldb.NewFwdPkg(scid, w.fwdHeight[c], nil, newFwd)
+		w.fwdHeight[c]++
+		err := kvdb.Update(w.cdb, func(tx kvdb.RwTx) error {
+			return channeldb.NewChannelPackager(scid).AddFwdPkg(
+				tx, pkg,
+			)
+		}, func() {})
+		if err != nil {
+			return fmt.Errorf("AddFwdPkg: %v", err)
+		}
+	}
 
 	if err := w.sw.ForwardPackets(nil, pkts...); err != nil {
 		return fmt.Errorf("ForwardPackets: %v", err)
@@ -1097,7 +1364,11 @@ func (w *c07World) actInCommit(t *rapid.T) error {
 	c := w.drawLink(t, "inCommitLink", func(c int) bool {
 		return len(w.boxResps(c)) > 0
 	})
+	if c == 0 {
+		return nil
+	}
 	var keys []CircuitKey
+	var dests []channeldb.SettleFailRef
 	refs := make(map[CircuitKey]*channeldb.AddRef)
 	for _, pkt := range w.boxResps(c) {
 		if rapid.IntRange(0, 3).Draw(t, "consume") == 0 {
@@ -1105,6 +1376,27 @@ func (w *c07World) actInCommit(t *rapid.T) error {
 		}
 		keys = append(keys, pkt.inKey())
 		refs[pkt.inKey()] = pkt.sourceRef
+		delete(w.seenResp, pkt)
+		if w.lc && pkt.destRef != nil {
+			dests = append(dests, *pkt.destRef)
+		}
+	}
+	// Life-cycle mode: the commitment that carries the responses acks
+	// them in the outgoing channels' forwarding packages (same
+	// transaction as the commit diff in the real link), before the
+	// circuits are deleted and the mailbox is acked.
+	if len(dests) > 0 {
+		err := kvdb.Update(w.cdb, func(tx kvdb.RwTx) error {
+			return w.sw.cfg.SwitchPackager.AckSettleFails(tx, dests...)
+		}, func() {})
+		if err != nil {
+			return fmt.Errorf("AckSettleFails: %v", err)
+		}
+		for _, d := range dests {
+			if fe := w.fwdByRef[d]; fe != nil {
+				fe.acked = true
+			}
+		}
 	}
 	if len(keys) > 0 {
 		if err := w.sw.circuits.DeleteCircuits(keys...); err != nil {
@@ -1125,6 +1417,14 @@ func (w *c07World) actInCommit(t *rapid.T) error {
 		h.exists, h.out, h.closed = false, nil, false
 		h.respBox = false
 		h.resolved = true
+		if h.unclaimed {
+			return fmt.Errorf("harness: %s resolved while parked",
+				c07KeyStr(in))
+		}
+		if h.wasParked {
+			h.parkedFin = true
+			w.label("lc:parked_resp_committed_acked")
+		}
 		// channel.SettleHTLC/FailHTLC(.., pkt.sourceRef, ..): the
 		// commitment that carries the response acks exactly the
 		// referenced ADD.
@@ -1154,6 +1454,10 @@ func (w *c07World) actInCommit(t *rapid.T) error {
 			outgoingHTLCID: out.HtlcID,
 			amount:         1,
 		}
+		if fe := w.fwdByOut[out]; w.lc && fe != nil {
+			ref := fe.ref
+			pkt.destRef = &ref
+		}
 		if rapid.Bool().Draw(t, "settle") {
 			pkt.htlc = &lnwire.UpdateFulfillHTLC{}
 		} else {
@@ -1180,7 +1484,9 @@ func (w *c07World) actToggle(t *rapid.T) error {
 	w.ls[c].eligible = !w.ls[c].eligible
 	// only read by the forwarding goroutine while handling a packet;
 	// the barrier of the previous action ordered those reads before.
-	w.links[c].eligible = w.ls[c].eligible
+	if w.up(c) {
+		w.links[c].eligible = w.ls[c].eligible
+	}
 	w.logf("eligible(link%d)=%v", c, w.ls[c].eligible)
 
 	return w.settle(&c07Expect{})
@@ -1205,6 +1511,11 @@ func (w *c07World) actSwitchRestart(t *rapid.T) error {
 	w.rec.handed = nil
 	w.rec.mu.Unlock()
 
+	exp := &c07Expect{}
+	if w.lc {
+		w.predictStart(exp)
+	}
+
 	if err := w.startSwitch(); err != nil {
 		return fmt.Errorf("start: %v", err)
 	}
@@ -1214,7 +1525,14 @@ func (w *c07World) actSwitchRestart(t *rapid.T) error {
 		w.label("switch_restart_trimmed")
 	}
 
-	return w.settle(&c07Expect{})
+	if err := w.settle(exp); err != nil {
+		return err
+	}
+	if w.lc {
+		return w.plugSome(t, 5)
+	}
+
+	return nil
 }
 
 func TestVerifC07Switch(t *testing.T) {
